@@ -404,19 +404,20 @@ def targeted(w, b, g):
     add(OK.DIV, [c(-7), c(Fraction(-2, 3))])
     for name in ["i0", "i1", "r0", "i2", "i3", "r1", "r2", "h0", "n0", "n1", "q0", "q1", "q2", "z0"]:
         x = fl(name)
-        for d in [3, -3, Fraction(1, 3), Fraction(-7, 2), 10 ** 400, -(2 ** 53) - 1, 0]:
+        huge = 10 ** 400 if name in ("i0", "i2", "r1", "q0") else 2 ** 70 + 1     # 400-digit rationals are slow inside Coq
+        for d in [3, -3, Fraction(1, 3), Fraction(-7, 2), huge, -(2 ** 53) - 1, 0]:
             q = add(OK.DIV, [x, c(d)])
             if q is not None and d in (3, -3, Fraction(-7, 2)):
                 add(OK.DIV, [q, c(-7)])
                 add(OK.DIV, [q, c(Fraction(5, 4))])
                 add(OK.DIV, [c(1), q])
-        for k in [0, 2, -2, Fraction(-1, 3), 10 ** 400]:
+        for k in [0, 2, -2, Fraction(-1, 3), huge]:
             add(OK.TIMES, [x, c(k)])
             add(OK.TIMES, [c(k), x])
             add(OK.PLUS, [x, c(k)])
             add(OK.MINUS, [c(k), x])
             add(OK.MINUS, [x, c(k)])
-        for other in ["i2", "r1", "i3", "r2", "n0", "q0", "z0", "i0", "n1"]:
+        for other in ["i2", "r1", "r2", "n0", "z0", "n1"]:
             y = fl(other)
             add(OK.TIMES, [x, y])
             add(OK.MINUS, [x, y])
@@ -516,9 +517,9 @@ def run(ctx):
     b = Builder(w, names)
     g = Gen(w, b, rng)
 
-    n_rand = 700 if ctx.quick else 14000
-    n_ill = 250 if ctx.quick else 3000
-    n_bool = 120 if ctx.quick else 1500
+    n_rand = 700 if ctx.quick else 30000
+    n_ill = 250 if ctx.quick else 5000
+    n_bool = 120 if ctx.quick else 3000
     records = []          # (gallina expr, outcome, node|None, origin)
     for s, o, n in targeted(w, b, g):
         records.append((s, o, n, "targeted"))
@@ -535,7 +536,10 @@ def run(ctx):
     for s, o, n in ill_typed(w, b, g, rng, n_ill):
         records.append((s, o, n, "operand-kinds"))
     for i in range(n_bool):
-        e = w.gen_bool(rng.choice([1, 2, 3]), ())
+        try:
+            e = w.gen_bool(rng.choice([1, 2, 3]), ())
+        except ZeroDivisionError:
+            continue      # the shared generator divided by an expression of type [0,0] (fluent z0): modelled outcome ZeroDiv, covered by the targeted cases
         records.append((None, ("ty", e.type), e, "random-bool"))
     # variables bound inside the random Boolean expressions must be declared in the environment
     seen_vars = {}
@@ -576,7 +580,7 @@ def run(ctx):
 
     # ---- pool of interpretations: corners, random interior points
     pool_py, pool_g = [], []
-    n_pool = 10 if ctx.quick else 24
+    n_pool = 8 if ctx.quick else 24
     for i in range(n_pool):
         fl, par, ifun = w.rand_interp(corner=(i % 2 == 0))
         I = {"fl": fl, "par": par, "ifun": ifun, "objs": w.objs_table()}
@@ -705,6 +709,7 @@ def run(ctx):
     # coverage figure measured inside Coq: how many (expression, interpretation) evaluations were defined
     try:
         acc = [c for c, r in zip(cases, records) if r[2] is not None][:150]
+        acc = acc[:60] if ctx.quick else acc
         outc = ctx.coq_show("fold_right plus 0%nat (map (defined_count pool) cs)", imports=IMPORTS,
                             preamble=preamble + "Definition cs := %s.\n" % glist(acc))
         defined_evals = outc
@@ -718,7 +723,7 @@ def run(ctx):
         "expression_cases": len(cases),
         "pool_interpretations": len(pool_py),
         "oracle_evaluations": len([r for r in records if r[2] is not None]) * len(pool_py) * 2,
-        "defined_evaluations_first_150_cases": defined_evals,
+        "defined_evaluations_first_60_or_150_cases": defined_evals,
         "distinct_nontrivial": len(nontrivial),
         "rule": "distinct serialised expressions; non-trivial = accepted with >= 3 nodes, or rejected at the top node; plus the exhaustive "
                 "21x21 ordered type pairs for walk_equals and is_compatible_type (exhaustive over that universe only)",
